@@ -1,6 +1,7 @@
 package main
 
 import (
+	"time"
 	"encoding/json"
 	"errors"
 	"fmt"
@@ -27,7 +28,8 @@ type C19Step struct {
 	Chunk int    `json:"chunk,omitempty"` // >0: a healthy writer that forwards in chunks of this many bytes
 	// Kind selects which optional interfaces the writer also implements (code
 	// may take another path for them): "" = io.Writer only, "string" =
-	// io.StringWriter too, "byte" = io.ByteWriter too, "both".
+	// io.StringWriter too, "byte" = io.ByteWriter too, "both", "readfrom" =
+	// io.ReaderFrom too (counts bytes read, like bufio.Writer).
 	Kind string `json:"kind,omitempty"`
 }
 
@@ -39,6 +41,19 @@ type C19Scenario struct {
 	Module string    `json:"module"` // module source name
 	Start  string    `json:"start"`  // fresh | printed
 	Steps  []C19Step `json:"steps"`
+	// Others (with Tape): other modules written by other goroutines at the same
+	// time, one WriteTo each, interleaved by the scheduler with Steps[0] on
+	// Module. What one writer receives must not depend on what is being printed
+	// elsewhere in the process.
+	Others []C19Other `json:"others,omitempty"`
+	Tape   *Tape      `json:"tape,omitempty"`
+}
+
+// C19Other is one concurrent WriteTo on another module.
+type C19Other struct {
+	Module string  `json:"module"`
+	Start  string  `json:"start"`
+	Step   C19Step `json:"step"`
 }
 
 // simWriter is the simulated io.Writer.
@@ -118,8 +133,35 @@ func (w simWriterSB) WriteByte(c byte) error {
 	return err
 }
 
+// simWriterRF also implements io.ReaderFrom the way bufio.Writer does: it pulls
+// the source through a small buffer into its own Write and reports the number of
+// bytes it READ (which is not the number of bytes it accepted when a Write fails).
+type simWriterRF struct{ *simWriter }
+
+func (w simWriterRF) ReadFrom(r io.Reader) (int64, error) {
+	var n int64
+	buf := make([]byte, 512)
+	for {
+		m, rerr := r.Read(buf)
+		n += int64(m)
+		if m > 0 {
+			if _, werr := w.simWriter.Write(buf[:m]); werr != nil {
+				return n, werr
+			}
+		}
+		if rerr == io.EOF {
+			return n, nil
+		}
+		if rerr != nil {
+			return n, rerr
+		}
+	}
+}
+
 func (w *simWriter) as(kind string) io.Writer {
 	switch kind {
+	case "readfrom":
+		return simWriterRF{w}
 	case "string":
 		return simWriterS{w}
 	case "byte":
@@ -300,7 +342,7 @@ func c19Search() {
 				}
 				distinct.add(hash64(sc.Module, sc.Start, st.Shape, fmt.Sprint(st.K), fmt.Sprint(st.Chunk), st.Kind))
 				if st.Kind != "" {
-					sum.Counters["writes into a writer that also implements io."+map[string]string{"string": "StringWriter", "byte": "ByteWriter", "both": "StringWriter and io.ByteWriter"}[st.Kind]]++
+					sum.Counters["writes into a writer that also implements io."+map[string]string{"string": "StringWriter", "byte": "ByteWriter", "both": "StringWriter and io.ByteWriter", "readfrom": "ReaderFrom"}[st.Kind]]++
 				}
 			}
 			if len(sum.Samples) < 4 && sum.Counters["episodes (fresh simulator state, module rebuilt)"]%131 == 1 {
@@ -338,7 +380,7 @@ func c19Search() {
 					if (thorough && len(S) <= 16384 && (k0/episodeLen)%2 == 1) || (k0/episodeLen)%13 == 5 {
 						sc.Start = "fresh"
 					}
-					kind := []string{"", "string", "byte", "both"}[(k0/episodeLen)%4]
+					kind := []string{"", "string", "byte", "both", "readfrom"}[(k0/episodeLen)%5]
 					if !thorough && (k0/episodeLen)%3 != 0 {
 						kind = "" // quick: most episodes use the plain writer
 					}
@@ -359,7 +401,7 @@ func c19Search() {
 			for e := 0; e < 40 && failures < *flagMaxFail; e++ {
 				sc := &C19Scenario{Module: src.Name, Start: "printed"}
 				for i := 0; i < episodeLen-1; i++ {
-					sc.Steps = append(sc.Steps, C19Step{K: r.intn(len(S) + 1), Shape: []string{"short", "fullerr"}[r.intn(2)], Kind: []string{"", "", "string", "byte", "both"}[r.intn(5)]})
+					sc.Steps = append(sc.Steps, C19Step{K: r.intn(len(S) + 1), Shape: []string{"short", "fullerr"}[r.intn(2)], Kind: []string{"", "", "string", "byte", "both", "readfrom"}[r.intn(6)]})
 				}
 				sc.Steps = append(sc.Steps, C19Step{K: -1, Shape: "short"})
 				if !mine() {
@@ -372,15 +414,161 @@ func c19Search() {
 			}
 		}
 	}
+	// Concurrent phase: WriteTo calls on DIFFERENT modules at the same time
+	// (seeded; the per-offset enumeration above is sequential).
+	if failures < *flagMaxFail && !overBudget() {
+		var small []*moduleSource
+		lens := map[string]int{}
+		for _, src := range srcs {
+			if S, why := c19Reference(src); why == "" && len(S) > 0 && len(S) <= 6000 {
+				small = append(small, src)
+				lens[src.Name] = len(S)
+			}
+		}
+		nconc := int64(480)
+		if thorough {
+			nconc = 48000
+		}
+		for idx := int64(0); idx < nconc && len(small) >= 2 && failures < *flagMaxFail && !overBudget(); idx++ {
+			if idx%shardN != shardI {
+				continue
+			}
+			r := newRNG(derive(*flagSeed, fmt.Sprintf("C19conc/%d", idx)))
+			pick := func() (string, string, C19Step) {
+				src := small[r.intn(len(small))]
+				st := C19Step{K: -1, Shape: "short"}
+				if r.chance(1, 2) {
+					st = C19Step{K: r.intn(lens[src.Name] + 1), Shape: []string{"short", "fullerr"}[r.intn(2)]}
+				}
+				st.Kind = []string{"", "", "string", "byte", "both", "readfrom"}[r.intn(6)]
+				return src.Name, []string{"printed", "fresh"}[r.intn(2)], st
+			}
+			sc := &C19Scenario{}
+			var st C19Step
+			sc.Module, sc.Start, st = pick()
+			sc.Steps = []C19Step{st}
+			for i, n := 0, 1+r.intn(2); i < n; i++ {
+				m, start, step := pick()
+				sc.Others = append(sc.Others, C19Other{Module: m, Start: start, Step: step})
+			}
+			sc.Tape = genTape(r, TapeParams{NSched: 1024, MeanGap: []int{2, 3, 5, 8, 16, 40, 100}[r.intn(7)], EdgePct: []int{0, 30, 100}[r.intn(3)], EarlyPct: 50, NPool: 256})
+			sc.Tape.StepCap = 20000000
+			curScenario = sc
+			bad, who, outs, stats, skip := c19Conc(sc)
+			if skip != "" {
+				sum.Skipped[skip]++
+				continue
+			}
+			sum.Runs += int64(len(outs))
+			sum.Counters["concurrent runs (WriteTo on different modules at the same time)"]++
+			sum.Counters["concurrent runs/context switches"] += stats.Switches
+			if stats.Switches > 0 {
+				distinct.add(stats.TraceHash ^ hash64(sc.Module, fmt.Sprint(sc.Steps[0].K)))
+			}
+			if bad != nil {
+				failures++
+				sum.Failures++
+				trimTape(sc.Tape, stats)
+				emit(outRec{T: "fail", Property: "C19", Seed: *flagSeed, Class: bad.class, Sig: bad.sig + " (while other modules are being written)", Detail: fmt.Sprintf("writer %d of %d concurrent WriteTo calls on different modules: %s", who, 1+len(sc.Others), bad.detail), Replay: sc})
+			}
+		}
+	}
 	sum.Exhausted = thorough
 	sum.Distinct = distinct.list()
 	emit(outRec{T: "summary", Property: "C19", Summary: sum})
+}
+
+// c19Conc runs a concurrent scenario: Steps[0] on Module and one step on each of
+// Others, as simulator tasks under sc.Tape. It returns the first failing
+// outcome (with the index of its task), the outcomes of all tasks, or a reason to skip.
+func c19Conc(sc *C19Scenario) (bad *c19Outcome, who int, outs []*c19Outcome, stats simrt.Stats, skip string) {
+	type part struct {
+		src   *moduleSource
+		start string
+		step  C19Step
+		S     string
+		m     *ir.Module
+	}
+	parts := []*part{{src: findSource(sc.Module), start: sc.Start, step: sc.Steps[0]}}
+	for _, o := range sc.Others {
+		parts = append(parts, &part{src: findSource(o.Module), start: o.Start, step: o.Step})
+	}
+	for _, p := range parts {
+		if p.src == nil {
+			return nil, 0, nil, stats, "unknown module"
+		}
+		S, why := c19Reference(p.src)
+		if why != "" {
+			return nil, 0, nil, stats, why
+		}
+		p.S = S
+	}
+	simrt.Load((&Tape{}).config())
+	simrt.SeamsOn(true, false)
+	defer simrt.SeamsOn(false, false)
+	for _, p := range parts {
+		p := p
+		crashed, _ := simCallSafe(func() {
+			m, err := p.src.Build()
+			if err != nil {
+				skip = "module rejected by the parser"
+				return
+			}
+			if p.start == "printed" {
+				if pp, _ := protect(func() { _ = m.String() }); pp {
+					skip = "String() panics (not C19's business)"
+					return
+				}
+			}
+			p.m = m
+		})
+		if crashed || skip != "" || p.m == nil {
+			if skip == "" {
+				skip = "module could not be built"
+			}
+			return nil, 0, nil, stats, skip
+		}
+	}
+	outs = make([]*c19Outcome, len(parts))
+	fns := make([]func(), len(parts))
+	for i, p := range parts {
+		i, p := i, p
+		fns[i] = func() { outs[i] = c19Run(&p.step, p.m, p.S) }
+	}
+	tape := sc.Tape
+	if tape == nil {
+		tape = &Tape{}
+	}
+	simrt.Load(tape.config())
+	res := simrt.RunTasks(fns, 60*time.Second)
+	stats = simrt.Snapshot()
+	for i, r := range res {
+		if r.Panic != nil && i < len(parts) && outs[i] == nil {
+			outs[i] = &c19Outcome{class: "panic", sig: "panic on a goroutine started by WriteTo", detail: fmt.Sprint(r.Panic)}
+		}
+	}
+	for i, o := range outs {
+		if o != nil && o.class != "" {
+			return o, i, outs, stats, ""
+		}
+	}
+	return nil, 0, outs, stats, ""
 }
 
 func c19Replay(raw json.RawMessage) *outRec {
 	var sc C19Scenario
 	if err := json.Unmarshal(raw, &sc); err != nil || len(sc.Steps) == 0 {
 		return &outRec{T: "note", Class: "harness-error", Detail: "bad C19 scenario"}
+	}
+	if len(sc.Others) > 0 {
+		bad, who, _, _, skip := c19Conc(&sc)
+		if skip != "" {
+			return &outRec{T: "note", Class: "skipped", Detail: skip}
+		}
+		if bad == nil {
+			return nil
+		}
+		return &outRec{T: "fail", Property: "C19", Class: bad.class, Sig: bad.sig + " (while other modules are being written)", Detail: fmt.Sprintf("writer %d of %d concurrent WriteTo calls on different modules: %s", who, 1+len(sc.Others), bad.detail), Replay: &sc}
 	}
 	src := findSource(sc.Module)
 	if src == nil {
@@ -411,6 +599,28 @@ func c19Candidates(raw json.RawMessage) []interface{} {
 		var c C19Scenario
 		json.Unmarshal(b, &c)
 		return &c
+	}
+	if len(sc.Others) > 0 {
+		for i := range sc.Others {
+			if len(sc.Others) > 1 {
+				c := clone()
+				c.Others = append(c.Others[:i:i], c.Others[i+1:]...)
+				out = append(out, c)
+			}
+		}
+		if sc.Tape != nil {
+			for _, g := range shrinkStream(sc.Tape.Gaps) {
+				c := clone()
+				c.Tape.Gaps = g
+				out = append(out, c)
+			}
+			for _, g := range shrinkStream(sc.Tape.Picks) {
+				c := clone()
+				c.Tape.Picks = g
+				out = append(out, c)
+			}
+		}
+		return out
 	}
 	n := len(sc.Steps)
 	// Only the last step; then drop single earlier steps.
